@@ -23,6 +23,18 @@ NamesChain4 == NamesChain \cup {<<"r", "a", "a", "a">>, <<"r", "b">>}
 MetaOne == {<<M700, "t1">>}
 TargetsTwo == {"abs_o", "up2_o"}
 
+\* one Extractor value, several Extract calls.  ReuseNone: the single-call configurations.
+ReuseNone == [calls |-> 1, targets |-> {}, names |-> {}, types |-> {}, max |-> 0, contents |-> {"X"}]
+\* a second call into another (fresh) target [and into the same target again] with a short archive of directories
+\* that carry metadata, after a first call that may end in every way -- success, every refusal, a truncated body
+ReuseOther == [calls |-> 2, targets |-> {U}, names |-> {<<"r">>, <<"r", "a">>}, types |-> {"dir"}, max |-> 2,
+               contents |-> {"X", "trunc"}]
+ReuseBoth  == [ReuseOther EXCEPT !.targets = {U, T}]
+\* first call: names that get somewhere (two siblings and a child: removal of a deferred directory, traversal of a
+\* link / file, non-empty directory) and one per refusal class
+NamesReuse == {<<"r">>, <<"r", "a">>, <<"r", "b">>, <<"r", "a", "a">>, <<"r", "..">>, <<"r", "z">>}
+TargetsOne == {"abs_o"}
+
 MetaAll == {<<0, "z">>, <<M700, "z">>, <<0, "t1">>, <<M700, "t1">>}
 MetaTwo == {<<0, "z">>, <<M700, "t1">>}
 TargetsAll == {"abs_o", "up2_o", "rel_a", "abs_of"}
